@@ -40,10 +40,13 @@ Definition eval (op : Z) (a : list float) : option (list float) :=
   | 8, [a;b;c;d;e;f;x;y] =>
       Some [z2f (ellipse_winding (ellipse_from_affine (mkAffine a b c d e f)) (mkPoint x y))]
   (* Ellipse::new goes through sin/cos: tolerance *)
-  | 9, [cx;cy;rx;ry;th] =>
+  (* tolerance groups 9, 15, 18 carry the power-of-two scale [s] of the configuration in front; the outputs
+     are brought back to unit scale (exact division) so that the 1e-9 tolerance stays relative *)
+  | 9, [s;cx;cy;rx;ry;th] =>
       let el := ellipse_new (mkPoint cx cy) (mkVec2 rx ry) th in
-      Some (vec_out (ellipse_radii el) ++ pt_out (ellipse_center el) ++ [ellipse_area el]
-            ++ rect_out (ellipse_bounding_box el))
+      let u := fun x : float => PrimFloat.div x s in
+      Some (map u (vec_out (ellipse_radii el)) ++ map u (pt_out (ellipse_center el)) ++ [u (u (ellipse_area el))]
+            ++ map u (rect_out (ellipse_bounding_box el)))
   | 10, [a;b;c;d;e;f] =>
       Some [snd (ellipse_radii_and_rotation (ellipse_from_affine (mkAffine a b c d e f)))]
   | 11, [a;b;c;d;e;f;acc] =>
@@ -53,15 +56,15 @@ Definition eval (op : Z) (a : list float) : option (list float) :=
   | 14, [ax;ay;bx;by_;cx;cy] =>
       let t := mkTriangle (mkPoint ax ay) (mkPoint bx by_) (mkPoint cx cy) in
       Some (tri_area t :: rect_out (tri_bounding_box t))
-  | 15, [ax;ay;bx;by_;cx;cy] =>
-      Some [tri_perimeter (mkTriangle (mkPoint ax ay) (mkPoint bx by_) (mkPoint cx cy))]
+  | 15, [s;ax;ay;bx;by_;cx;cy] =>
+      Some [PrimFloat.div (tri_perimeter (mkTriangle (mkPoint ax ay) (mkPoint bx by_) (mkPoint cx cy))) s]
   (* the required behaviour (zero-area triangles contain nothing); 116 is the pinned code *)
   | 16, [ax;ay;bx;by_;cx;cy;x;y] =>
       Some [z2f (tri_winding (mkTriangle (mkPoint ax ay) (mkPoint bx by_) (mkPoint cx cy)) (mkPoint x y))]
   | 17, [x0;y0;x1;y1] =>
       let l := mkLine (mkPoint x0 y0) (mkPoint x1 y1) in
       Some (line_shape_area l :: z2f (line_shape_winding l (mkPoint x0 y1)) :: rect_out (line_shape_bounding_box l))
-  | 18, [x0;y0;x1;y1] => Some [line_shape_perimeter (mkLine (mkPoint x0 y0) (mkPoint x1 y1))]
+  | 18, [s;x0;y0;x1;y1] => Some [PrimFloat.div (line_shape_perimeter (mkLine (mkPoint x0 y0) (mkPoint x1 y1))) s]
   (* spec side: PathSeg::Line(..).winding_inner(p), and BezPath::winding of the polygonal outlines *)
   | 19, [sx;sy;ex;ey;x;y] => Some [z2f (line_winding_inner (mkPoint sx sy) (mkPoint ex ey) (mkPoint x y))]
   | 20, [x0;y0;x1;y1;x;y] => Some [z2f (poly_winding (rect_outline (mkRect x0 y0 x1 y1)) (mkPoint x y))]
